@@ -7,6 +7,7 @@ STD_ASSUME_PURE = [
 
 PROPS = {
     "C02": {
+        "shrink_iters": 3, "shrink_cands": 6,
         "lean_modules": ["RdestModel.Props.C02"],
         "cases": {"quick": 14, "thorough": 700},
         "rule": "every case is one end-to-end run of the real Session::run in a child process (scratch directory, loopback tracker, fixed port 6881 "
@@ -194,6 +195,7 @@ PROPS = {
                                            "announce URLs without fragment ('#') and with a syntactically valid query"],
     },
     "C19": {
+        "shrink_iters": 40, "shrink_cands": 12,
         "lean_modules": ["RdestModel.Props.C19"],
         "cases": {"quick": 2500, "thorough": 60000},
         "rule": "replies built from a syntax tree: interval missing/negative/wrong type/0..2^63-1; failure reason as UTF-8 string, non-UTF-8 string, "
